@@ -25,8 +25,8 @@ def objHumanSpec (sp : Spec) : Bool :=
       before/after the complements);
     * a prepositional question finds the same prepositional complement in both notations (the constituent notation
       only looks at the first one, the dependency notation at all of them): `questionPPPh = questionPPDep`;
-    * a subject question is asked of a third-person-singular subject (else the two sides reset different features);
-    * a tag question is not asked of `cannot` alone (the constituent side raises). -/
+    * a subject question is asked of a third-person-singular subject (else the two sides reset different features).
+    (The clause proper of a tag question is the same in both notations; the tag itself is outside `Out.main`.) -/
 def C08Cond (sp : Spec) (ty : Typ) : Bool :=
   (!ty.pas || (sp.pps.isEmpty && (match sp.obj with | some (.np _) => true | _ => false) &&
                 (match sp.subj with | .np _ => true | _ => false))) &&
@@ -34,8 +34,7 @@ def C08Cond (sp : Spec) (ty : Typ) : Bool :=
    | none => true
    | some i =>
      (!i.isPPq || ty.pas || decide (questionPPPh i (ppArgs sp) = questionPPDep i (ppArgs sp))) &&
-     (!(i == .wos || i == .was) || subjAgrOf sp ty.pas == ⟨.p3, .s⟩) &&
-     (!(i == .tag) || hasV (clauseWords sp ty)))
+     (!(i == .wos || i == .was) || subjAgrOf sp ty.pas == ⟨.p3, .s⟩))
 
 theorem front_eq_frontD (sj : ArgTok) (ws compl : List Tok) (hv : hasV ws = true)
     (hc : 2 ≤ ws.length ∨ headAlone ws = true) : front sj ws compl = frontD sj ws compl := by
@@ -71,7 +70,7 @@ theorem lin_agree (sp : Spec) (ty : Typ) (hc : C08Cond sp ty = true) : lin .phra
     | some i =>
       have hf := hfr i rfl
       simp only [Bool.and_eq_true, Bool.or_eq_true, Bool.not_eq_true', decide_eq_true_eq] at hint
-      obtain ⟨⟨hppq, hwos⟩, htag⟩ := hint
+      obtain ⟨hppq, hwos⟩ := hint
       cases i
       case woi | wai | whe | whn =>
         have he := hppq
@@ -80,10 +79,7 @@ theorem lin_agree (sp : Spec) (ty : Typ) (hc : C08Cond sp ty = true) : lin .phra
       case wod =>
         simp [lin, linDep, linPh, linDepPlain, midPh, hf (by rfl), Gen.ClauseEn.phraseHumanObjectGetsIntValue,
           Gen.ClauseEn.depHumanObjectGetsIntValue]
-      case tag =>
-        have hv : hasV (clauseWords ⟨subj, verb, t, obj, pps⟩ ⟨neg, false, perf, prog, contr, exc, md, some .tag⟩) = true := by
-          simpa using htag
-        simp [lin, linDep, linPh, linDepPlain, midPh, hv]
+      case tag => simp [lin, linDep, linPh, linDepPlain, midPh]
       case wos | was => simp [lin, linDep, linPh, linDepPlain, midPh]
       all_goals simp [lin, linDep, linPh, linDepPlain, midPh, hf (by rfl)]
   · -- passive: nominal subject and object, no other prepositional complement
@@ -104,15 +100,12 @@ theorem lin_agree (sp : Spec) (ty : Typ) (hc : C08Cond sp ty = true) : lin .phra
           | some i =>
             have hf := hfr i rfl
             simp only [Bool.and_eq_true, Bool.or_eq_true, Bool.not_eq_true', decide_eq_true_eq] at hint
-            obtain ⟨⟨hppq, hwos⟩, htag⟩ := hint
+            obtain ⟨hppq, hwos⟩ := hint
             cases i
             case woi | wai | whe | whn =>
               simp [lin, linDep, linPh, linDepPlain, midPh, hf (by rfl), ppArgs, byArg, demote, argTokOfSubj,
                 questionPP_single]
-            case tag =>
-              have hv : hasV (clauseWords ⟨.np b, verb, t, some (.np a), []⟩
-                  ⟨neg, true, perf, prog, contr, exc, md, some .tag⟩) = true := by simpa using htag
-              simp [lin, linDep, linPh, linDepPlain, midPh, hv, ppArgs, byArg, demote, argTokOfSubj]
+            case tag => simp [lin, linDep, linPh, linDepPlain, midPh, ppArgs, byArg, demote, argTokOfSubj]
             case wos | was => simp [lin, linDep, linPh, linDepPlain, midPh, ppArgs, byArg, demote, argTokOfSubj]
             case wod =>
               simp [lin, linDep, linPh, linDepPlain, midPh, hf (by rfl), ppArgs, byArg, demote, argTokOfSubj, objHuman,
